@@ -491,20 +491,21 @@ namespace awkward {
         + std::string(" cannot be assigned to record array of length ")
         + std::to_string(length()) + FILENAME(__LINE__));
     }
-    ContentPtrVec contents(contents_.begin(), contents_.end());
+    // a field that already has this name is replaced, not doubled
+    util::RecordLookupPtr oldlookup = recordlookup_;
+    if (oldlookup.get() == nullptr) {
+      oldlookup = util::init_recordlookup(numfields());
+    }
+    ContentPtrVec contents;
+    util::RecordLookupPtr recordlookup = std::make_shared<util::RecordLookup>();
+    for (size_t i = 0;  i < contents_.size();  i++) {
+      if (oldlookup.get()->at(i) != where) {
+        contents.push_back(contents_[i]);
+        recordlookup.get()->push_back(oldlookup.get()->at(i));
+      }
+    }
     contents.push_back(what);
-    util::RecordLookupPtr recordlookup;
-    if (recordlookup_.get() != nullptr) {
-      recordlookup = std::make_shared<util::RecordLookup>();
-      recordlookup.get()->insert(recordlookup.get()->end(),
-                                 recordlookup_.get()->begin(),
-                                 recordlookup_.get()->end());
-      recordlookup.get()->push_back(where);
-    }
-    else {
-      recordlookup = util::init_recordlookup(numfields());
-      recordlookup.get()->push_back(where);
-    }
+    recordlookup.get()->push_back(where);
     std::vector<ArrayCachePtr> caches(caches_);
     what.get()->caches(caches);
     return std::make_shared<RecordArray>(identities_,
